@@ -756,6 +756,19 @@ func moreScenarios() []Scenario {
 				{Name: "p2", Objects: []*unstructured.Unstructured{Widget("w2", 1)}, Slices: []string{"sl2"}},
 			}))
 		}},
+		{Name: "single-mapped", Setup: func(w *World) {
+			// condition mappings: the Widgets' Available condition shows up in the owner's status
+			w.EnvCreate(NewObjectSet("a1", []PhaseSpec{
+				{Name: "p1", Mapped: true, Objects: []*unstructured.Unstructured{ConfigMap("cm1", "x"), Widget("w1", 1), Widget("w4", 1)}},
+				{Name: "p2", Mapped: true, Objects: []*unstructured.Unstructured{Widget("w2", 1), ConfigMap("cm2", "x")}},
+			}))
+		}},
+		{Name: "delegated-mapped", Setup: func(w *World) {
+			w.EnvCreate(NewObjectSet("a1", []PhaseSpec{
+				{Name: "p1", Mapped: true, Class: "default", Objects: []*unstructured.Unstructured{ConfigMap("cm1", "x"), Widget("w1", 1), Widget("w4", 1)}},
+				{Name: "p2", Mapped: true, Objects: []*unstructured.Unstructured{Widget("w2", 1), ConfigMap("cm2", "x")}},
+			}))
+		}},
 		{Name: "rolledout-2phase", Setup: func(w *World) {
 			w.EnvCreate(NewObjectSet("a1", []PhaseSpec{
 				{Name: "p1", Objects: []*unstructured.Unstructured{ConfigMap("cm1", "x"), Widget("w1", 1)}},
